@@ -18,6 +18,7 @@
 #include <xercesc/util/RefArrayVectorOf.hpp>
 #include <xercesc/util/regx/TokenFactory.hpp>
 #include <xercesc/util/regx/RegxDefs.hpp>
+#include <xercesc/util/regx/XMLUniCharacter.hpp>
 #include <xercesc/util/ParseException.hpp>
 #include <xercesc/framework/XMLErrorCodes.hpp>
 #include <xercesc/util/RuntimeException.hpp>
@@ -433,6 +434,31 @@ static std::string doXp(const std::string& mode, const std::string& opts, const 
     return "ok " + out;
 }
 
+// cats: run-length encoding of XMLUniCharacter::getType over all 65536 code units:  start,end,category;...
+static std::string doCats() {
+    std::string out = "ok ";
+    unsigned start = 0;
+    unsigned short cur = XMLUniCharacter::getType((XMLCh)0);
+    char b[48];
+    for (unsigned c = 1; c <= 0x10000; c++) {
+        unsigned short t = c < 0x10000 ? XMLUniCharacter::getType((XMLCh)c) : 0xFFFF;
+        if (t != cur) {
+            snprintf(b, sizeof b, "%X,%X,%u;", start, c - 1, (unsigned)cur);
+            out += b;
+            start = c; cur = t;
+        }
+    }
+    return out;
+}
+// tok <keyword as hex6> <0|1>: the shared range token registered under a keyword (category / block / xml: names)
+static std::string doTok(const std::string& nameHex, const std::string& comp) {
+    U16 name = toU16(parseHex(nameHex, 6));
+    RangeToken* t = 0;
+    try { t = TokenFactory::staticGetRange(name.data(), comp == "1"); } catch (const XMLException& e) { return excName(e); }
+    if (!t) return "none";
+    return "ok " + std::string(t->getTokenType() == Token::T_NRANGE ? "n" : "r") + " " + dumpRange(t);
+}
+
 static std::string doNamed(const std::string& k) {
     const XMLCh* key = 0;
     bool comp = false;
@@ -459,6 +485,8 @@ int main() {
         if (a.size() == 4 && (a[0] == "re" || a[0] == "re1" || a[0] == "reil")) r = doRe(a[0], a[1], a[2], a[3]);
         else if (a.size() == 3 && a[0] == "xsd") r = doXsd(a[1], a[2]);
         else if (a.size() == 5 && a[0] == "xp") r = doXp(a[1], a[2], a[3], a[4]);
+        else if (a.size() == 1 && a[0] == "cats") r = doCats();
+        else if (a.size() == 3 && a[0] == "tok") r = doTok(a[1], a[2]);
         else if (a.size() == 2 && a[0] == "named") r = doNamed(a[1]);
         else if (a.size() == 4 && a[0] == "rng") r = doRng(a[1], a[2], a[3]);
         std::cout << r << "\n";
